@@ -56,6 +56,10 @@ pub fn dispatch(op: &str, a: &[Arg]) -> Option<String> {
                 let off = a[1].n() as i32 - a[2].n() as i32;
                 odt = odt.to_offset(time::UtcOffset::from_whole_seconds(off).unwrap());
             }
+            // optional 4th argument: a sub-second part in nanoseconds (DOS time has none: it is dropped, never rounded up)
+            if a.len() >= 4 {
+                odt += time::Duration::nanoseconds(a[3].n() as i64);
+            }
             match DateTime::try_from(odt) {
                 Ok(dt) => dt_obs(&dt),
                 Err(_) => "NONE".into(),
